@@ -102,7 +102,8 @@ def control_for(pki, kind, port='25'):
 class Case:
     """mode: 'script' | 'tls'; clear/tls: items ('S', bytes) | ('W',); hs: per accepted STARTTLS
     'o' (complete the handshake), 'g<n>' (the next clear item is sent instead of a ClientHello: OpenSSL
-    takes n bytes of it; plain 'g' = 5, the record header), 'c' (close), 't' (stay silent)"""
+    takes n bytes of it; plain 'g' = 5, the record header), 'c' (close), 't' (stay silent), 'a' (a real ClientHello,
+    then - after the server's flight - a close_notify alert in place of the rest of the handshake; clear text follows)"""
 
     def __init__(self, mode, cert='u', port='25', clear=(), tls=(), hs=(), eat=5, tag='', clean=True, localip=None, files=None, ccert=None, tlsclients=None):
         self.mode, self.cert, self.port = mode, cert, port
@@ -213,7 +214,7 @@ def hs_tok(case):
     def one(h):
         if h.startswith('g'):
             return 'f%d' % (int(h[1:]) if len(h) > 1 else case.eat)
-        return {'o': 'o', 'c': 'f0', 't': 't0'}[h]
+        return {'o': 'o', 'c': 'f0', 't': 't0', 'a': 'f0'}[h]
     return ','.join(one(h) for h in case.hs) or '-'
 
 
@@ -553,6 +554,32 @@ class TlsClient:
                 self._note(self.rp.feed(d))
         return ok
 
+    def alert_handshake(self):
+        """begin a real handshake and give it up with a warning-level close_notify alert after the server's flight:
+        the handshake has failed, the server must say so in clear text and must not regard the session as TLS"""
+        cctx = ssl.SSLContext(ssl.PROTOCOL_TLS_CLIENT)
+        cctx.check_hostname = False
+        cctx.verify_mode = ssl.CERT_NONE
+        cctx.maximum_version = ssl.TLSVersion.TLSv1_2
+        inb, outb = ssl.MemoryBIO(), ssl.MemoryBIO()
+        so = cctx.wrap_bio(inb, outb)
+        try:
+            so.do_handshake()
+        except ssl.SSLWantReadError:
+            pass
+        except ssl.SSLError:
+            pass
+        hello = outb.read()
+        if hello:
+            self._send(hello)
+        self._flush()
+        d = self._recv(10.0)                       # ServerHello .. ServerHelloDone
+        if d:
+            time.sleep(0.05)
+        self._send(bytes.fromhex('15030300020100'))
+        self._flush()
+        self.obs.append('K/0')
+
     def run(self):
         self.obs.append(header_obs(self.case))
         items = list(self.case.clear)
@@ -584,6 +611,9 @@ class TlsClient:
                     break
                 if h == 't':
                     break
+                if h == 'a':
+                    self.obs.pop()                 # alert_handshake() notes K/0 itself
+                    self.alert_handshake()
                 # 'g': the next clear item goes out in place of the ClientHello
         # the end: say nothing more, collect what the server still sends
         if self.case.hs[-1:] == ['t'] and not self.hs and self.tls is None:
